@@ -1,6 +1,14 @@
-"""C10 table translator: header dtypes / code tables / class attributes of the imported
-nibabel (from $VERIF_REPO) -> coq/C10/Tables.v (Gallina literals).  Fail-closed: anything
-unexpected raises.  Used by harness/c10.py (gen_tables) and importable on its own."""
+"""C10 — Binary headers are faithful to their bytes, byte order and repairs.
+
+Model: coq/C10/{Layout,Tables,Model}.v; theorems coq/C10/Props.v.  Case lines sent to
+bin/modelrun_c10 are documented at the top of coq/C10/driver.ml.  Compared with the
+implementation at public boundaries: klass(bytes, endianness, check=False).binaryblock /
+.endianness / field values (structarr), as_byteswapped, ==, copy, klass(endianness=e) defaults,
+BatteryRunner(klass._get_checks()).check_only / check_fix (repaired bytes + (level, message
+class, fix flag) per check), dst.from_header(src, check) (bytes or refusal class).
+Tables: gen_tables() below translates the header dtypes / code tables / class attributes of the
+imported nibabel (from $VERIF_REPO) into coq/C10/Tables.v (Gallina literals).  Fail-closed:
+anything unexpected raises."""
 import os
 import re
 import sys
@@ -176,14 +184,7 @@ def gen_tables():
 
 
 # =========================================================================== the check
-"""C10 — Binary headers are faithful to their bytes, byte order and repairs.
 
-Model: coq/C10/{Layout,Tables,Model}.v; theorems coq/C10/Props.v.  Case lines sent to
-bin/modelrun_c10 are documented at the top of coq/C10/driver.ml.  Compared with the
-implementation at public boundaries: klass(bytes, endianness, check=False).binaryblock /
-.endianness / field values (structarr), as_byteswapped, ==, copy, klass(endianness=e) defaults,
-BatteryRunner(klass._get_checks()).check_only / check_fix (repaired bytes + (level, message
-class, fix flag) per check), dst.from_header(src, check) (bytes or refusal class)."""
 import itertools
 import struct
 import warnings
@@ -413,7 +414,7 @@ def part_a_case(chk, suf, hdr, valid, tag, lines, recs):
         lines.append(f'a{i}.sf fields {suf} {sbe} {hx(sb)}')
         lines.append(f'a{i}.e1 eq {suf} {be} {hx(b)} {sbe} {hx(sb)}')
         lines.append(f'a{i}.e2 eq {suf} {sbe} {hx(sb)} {be} {hx(b)}')
-    chk.count(key=('A', suf, be, b), tag=f'A:{suf}', sample={'part': 'A', 'cls': suf, 'be': be, 'bytes': b.hex()[:80] + '...'} if i in (3, 400) else None)
+    chk.count(key=None if tag == 'default' else ('A', suf, be, b), tag=f'A:{suf}', sample={'part': 'A', 'cls': suf, 'be': be, 'bytes': b.hex()[:80] + '...'} if i in (3, 400) else None)
     chk.tagc(f'A:{tag}')
     chk.tagc('A:endian>' if be else 'A:endian<')
 
@@ -565,7 +566,8 @@ def defect_menu(suf):
         else:
             m['offset'] = [lambda h: h.__setitem__('vox_offset', 17), lambda h: h.__setitem__('vox_offset', -16),
                            lambda h: set_f(h, suf, 'vox_offset', None, nan), lambda h: h.__setitem__('vox_offset', 360.5),
-                           lambda h: set_f(h, suf, 'vox_offset', None, inf), lambda h: h.__setitem__('vox_offset', 1e30)]
+                           lambda h: set_f(h, suf, 'vox_offset', None, inf), lambda h: h.__setitem__('vox_offset', 1e30),
+                           lambda h: set_f(h, suf, 'vox_offset', None, inf | sb)]
         m['qform'] = [lambda h: h.__setitem__('qform_code', 6), lambda h: h.__setitem__('qform_code', -1)]
         m['sform'] = [lambda h: h.__setitem__('sform_code', 100), lambda h: h.__setitem__('sform_code', -3)]
         if n2:
@@ -596,6 +598,10 @@ def random_defects(rng, suf, h):
         h['origin'] = [rng.choice([0, 0, 1, -1, 5, 100, 32767, -32768, 16384, -16384]) for _ in range(5)]
         if rng.random() < 0.5:
             h['dim'] = [rng.choice([3, 4])] + [rng.choice([1, 2, 5, 100, 16384, -16384, 32767, -32768, 0]) for _ in range(7)]
+        if rng.random() < 0.5:      # boundaries of  -dim < origin < 2 * dim  (int16 arithmetic)
+            d = [int(x) for x in h['dim'][1:4]]
+            w16 = lambda z: (z + 32768) % 65536 - 32768
+            h['origin'] = [w16(rng.choice([2 * x, 2 * x - 1, 2 * x + 1, -x, -x + 1, -x - 1, x])) for x in d] + [0, 0]
     if suf.startswith('nifti'):
         if rng.random() < 0.4:
             set_f(h, suf, 'pixdim', 0, rand_fbits(rng, w))
@@ -970,7 +976,18 @@ def conv_perturb(rng, suf, h):
             h['qform_code'] = rng.choice([7, 1])
 
 
-UNPROVED = []
+UNPROVED = [
+    'C10_convert_preserves, clauses "get_shape dst h\' = get_shape src h" and "get_zooms dst h\' = cast of the source zooms": '
+    'not proved (FreeSurfer shape hacks, float casts); covered by the correspondence check and the direct predicate only. '
+    'Proved part: C10_convert_preserves_partial (datatype code + every same-named, same-typed field not re-derived)',
+    'C10_fix_idempotent / _noop_on_clean / _clears on header BYTES (check_bytes): proved on decoded field values (check_hdr) of any '
+    'header that fits its layout; the remaining step "the repaired values are in range for their width, hence survive '
+    'encode/decode" is not proved (tested: the repaired bytes are compared on every case)',
+    'C10_copy_independent: not stated - header objects are immutable values in the model, so independence of copies is a '
+    'property of NumPy buffers; checked on the implementation only (mutating a copy / the original)',
+    'C10_bytes_roundtrip for MGH through the class constructor holds only for goodRASFlag <> 0 '
+    '(C10_mgh_from_bytes_partial + C10_mgh_from_bytes_refuted, finding S-C10a)',
+]
 
 
 def vm_sample(chk, arecs, brecs):
